@@ -696,7 +696,9 @@ def shape_model(draw, shapes=tuple(SHAPES)):
                 m['links'].append(draw(link_row(names[0], new)))
                 cands = [new]
             else:
-                c = sorted(names, key=lambda x: -deg[x])[0]
+                below = [x for x in names if deg[x] < 3]
+                # raise a site of degree 1-2 to degree 3 (a site of degree > 3 exists otherwise: also 'not 2')
+                c = sorted(below, key=lambda x: -deg[x])[0] if below else sorted(names, key=lambda x: deg[x])[0]
                 k = 0
                 while deg[c] < 3:
                     new = f'Extra{k}'
@@ -705,7 +707,7 @@ def shape_model(draw, shapes=tuple(SHAPES)):
                                        'lon': None, 'type': 'ROADM', 'booster': None, 'preamp': None})
                     m['links'].append(draw(link_row(c, new)))
                     deg[c] += 1
-                cands = [c] if deg[c] == 3 else []
+                cands = [c]
         site = cands[0]
         for s in m['sites']:
             if s['city'] == site:
